@@ -44,8 +44,10 @@ if history >= 3:
         return compile_ufl_objects(objs, options=get_options(dict(o, language=lang)), object_names=ufd.object_names, namespace="v")[0]
     try:
         compile_objs(dict(opts, scalar_type=other))
-    except (Exception, ufl.algorithms.check_arities.ArityMismatch):
-        pass  # e.g. a form without conj in complex mode (UFL's ArityMismatch is a BaseException): rejected, which is fine
+    except (KeyboardInterrupt, SystemExit):
+        raise
+    except BaseException:
+        pass  # rejected in the other scalar type (UFL's ArityMismatch / ComplexComparisonError are BaseExceptions): fine
     code = compile_objs(opts)
 else:
     code = compile_one(rel, opts)
